@@ -140,6 +140,7 @@ class Stream:
 
         """
         self.ensure_usable()
+        self.enroll()
         if not self.options.params.namespace_declarations:
             msg = (
                 "namespace declarations are not enabled for this stream: it declares "
@@ -238,6 +239,7 @@ class TripleStream(Stream):
 
         """
         self.ensure_usable()
+        self.enroll()
         try:
             new_rows = encode_triple(
                 terms,
@@ -268,6 +270,7 @@ class QuadStream(Stream):
 
         """
         self.ensure_usable()
+        self.enroll()
         try:
             new_rows = encode_quad(
                 terms,
@@ -302,6 +305,7 @@ class GraphStream(TripleStream):
 
         """
         self.ensure_usable()
+        self.enroll()
         graph_start = jelly.RdfGraphStart()
         try:
             self.encoder.new_statement()
